@@ -11,6 +11,7 @@ mod chan;
 mod driver;
 mod forkrun;
 mod iter;
+mod probe;
 mod reg;
 mod vsched;
 
